@@ -153,14 +153,18 @@ def keyOf (g : GroupBy) (sn : Snap) : GroupKey :=
 
 /-- `snapshotGroups[k] = append(snapshotGroups[k], sn)` on an association list that keeps the
     keys in order of first appearance (Go's map has no order; the harness canonicalises) -/
-def addToGroups : List (GroupKey × List Snap) → GroupKey → Snap → List (GroupKey × List Snap)
+def addToGroups {α : Type} : List (GroupKey × List α) → GroupKey → α → List (GroupKey × List α)
   | [], k, sn => [(k, [sn])]
   | (k', l) :: rest, k, sn =>
     if k' = k then (k', l ++ [sn]) :: rest else (k', l) :: addToGroups rest k sn
 
+/-- the loop of `GroupSnapshots` for elements whose key is computed by `kf` -/
+def groupWith {α : Type} (kf : α → GroupKey) (l : List α) : List (GroupKey × List α) :=
+  l.foldl (fun gs sn => addToGroups gs (kf sn) sn) []
+
 /-- `GroupSnapshots` -/
 def groupSnapshots (g : GroupBy) (l : List Snap) : List (GroupKey × List Snap) :=
-  l.foldl (fun gs sn => addToGroups gs (keyOf g sn) sn) []
+  groupWith (keyOf g) l
 
 /-! ### Executable statement of the property (evaluated on the implementation's own output) -/
 
